@@ -377,6 +377,11 @@ func scopeRunsOnce(c *Ctx, p *pool.Pool, build func(id int, raw json.RawMessage)
 		fmt.Sscan(v, &items)
 	}
 	invs := "TypeOK IdsFresh IdsUnique BindsPrecede ReadsDeclared Emit"
+	if os.Getenv("VERIF_DEEPSIMS") == "1" {
+		// development aid: only the thorough tier's simulated layer (30 000 programs of 18 items)
+		return c.streamRun("simulated_deep"+sfx, tlc.Run{Module: "Scope", Workers: 1, Timeout: 60 * time.Minute,
+			Simulate: "num=30000", Depth: 19, Cfg: scCfg(`{"a","b"}`, 18, 5, 2, scKinds, 18, "Next", "Emit")}, p, 8, build, judge)
+	}
 	if scLight && !c.Thorough() {
 		// families with several queries per occurrence: three items only over the scoping-relevant forms, one file
 		if !c.streamRun("bfs3_core"+sfx, tlc.Run{Module: "Scope", Workers: 8, Timeout: 30 * time.Minute,
